@@ -188,7 +188,17 @@ def gen_cases(rng, thorough):
         t = struct_text(ins, outs)
         for c in corruptions(t, rng, None if thorough else 150):
             cases.append({"ev": "Parse", "text": chars(c)})
+    # every insertion of one structural character (",", "(", ")", ":", "-", ">") at every place of a sample of texts
+    for _ in range(120 if thorough else 25):
+        ins, outs = rand_struct(rng)
+        t = struct_text(ins, outs)
+        for i in range(len(t) + 1):
+            for ch in ",():->":
+                cases.append({"ev": "Parse", "text": chars(t[:i] + ch + t[i:])})
     # hand-picked malformed shapes of every listed class
+    for t in ["(X:center),->(X:left)", "(X:center)->(X:left),", "(),->()", ",(X:center)->(X:left)", "(X:center)->,(X:left)",
+              "(X:center),(Y:left),->(X:left)", "()->(),"]:
+        cases.append({"ev": "Parse", "text": chars(t)})
     for t in ["(X:center)", "(X:center)->", "->(X:center)", "(X:center)->(X:left)->(X:center)", "((X:center))->(X:left)",
               "(X:center->(X:left)", "X:center)->(X:left)", "(X:center)(Y:left)->(X:left)", "(X:middle)->(X:left)",
               "(:center)->(X:left)", "(X:)->(X:left)", "(X:center,,Y:left)->(X:left)", "(X:center),,(Y:left)->(X:left)",
